@@ -54,7 +54,7 @@ class SignalSpec(Spec):
         self.nbytes = (self.w + 7) // 8
         self.big = cfg["endian"] == "big"
         self.bulk = bool(cfg.get("bulk"))
-        self.time_budget = 240 if tier == "quick" else 850      # wall-clock safety net only; bounds are set by depth / fixed point
+        self.time_budget = 240 if tier == "quick" else 700      # wall-clock safety net only; bounds are set by depth / fixed point
         if cfg.get("depth"): self.max_depth = cfg["depth"]
         self.host = Host(gap=cfg["gap"], pace=cfg.get("pace", 1), ready_period=cfg["ready"])
         m = (1 << self.w) - 1
